@@ -48,5 +48,11 @@ func (pass *ReplaceReference) processRef(_ *Visitor, _ *ast.Schema, def ast.Type
 		return def, nil
 	}
 
-	return ast.NewRef(pass.To.Package, pass.To.Object, ast.Trail(fmt.Sprintf("ReplaceReference[%s → %s]", def.Ref, pass.To))), nil
+	// only the target of the reference changes: nullability, default and hints
+	// of the original reference are kept.
+	def.AddToPassesTrail(fmt.Sprintf("ReplaceReference[%s → %s]", def.Ref, pass.To))
+	def.Ref.ReferredPkg = pass.To.Package
+	def.Ref.ReferredType = pass.To.Object
+
+	return def, nil
 }
